@@ -50,6 +50,9 @@ mod annotation {
 //@extract crates/samlang-ast/src/source.rs :: mod annotation / struct TypeParameter
 //@keeppub
 //@end
+//@extract crates/samlang-ast/src/source.rs :: mod annotation / struct TypeParameters
+//@keeppub
+//@end
 //@extract crates/samlang-ast/src/source.rs :: mod annotation / enum PrimitiveTypeKind
 //@keeppub
 //@end
@@ -497,6 +500,27 @@ fn parse_annotation(parser: &mut SourceParser) -> (r: annotation::T) { unimpleme
       r matches Some(t) && t.arguments == arguments && encloses(t.location, start_loc)
         && exists|end: Location| t.location == #[trigger] joined(start_loc, end),  // :type_argument_list_range_runs_from_its_opening_to_its_closing_bracket
 //@before Some(annotation::TypeArguments {
+    assert(exists|end: Location| location == #[trigger] joined(start_loc, end));
+//@end
+
+// ---- a type-parameter list `<A, B: C>` runs from `<` to the token consumed as `>`
+/// R3: `parser.available_tparams.extend(parameters.iter().map(|it| it.name.name))` (iterator adapters) — touches only the parser
+#[verifier::external_body]
+fn note_available_tparams(parser: &mut SourceParser, parameters: &Vec<annotation::TypeParameter>) { unimplemented!() }
+/// rewrites bounds that name a type parameter; opaque here
+#[verifier::external_body]
+fn fix_tparams_with_generic_annot(parser: &mut SourceParser, parameters: &mut Vec<annotation::TypeParameter>) { unimplemented!() }
+
+//@extractblock crates/samlang-parser/src/source_parser.rs :: mod type_parser / fn parse_type_parameters
+//@from let (additional_loc, end_comments) =
+//@to parameters, })
+//@replace parser.available_tparams.extend(parameters.iter().map(|it| it.name.name)); => note_available_tparams(parser, &parameters); ## R3: iterator adapters over the parsed parameters
+//@wrap fn type_parameters_node(parser: &mut SourceParser, start_loc: Location, start_comments: Vec<Comment>, mut parameters: Vec<annotation::TypeParameter>) -> (r: Option<annotation::TypeParameters>)
+//@contract
+    ensures
+      r matches Some(t) && encloses(t.location, start_loc)
+        && exists|end: Location| t.location == #[trigger] joined(start_loc, end),  // :type_parameter_list_range_runs_from_its_opening_to_its_closing_bracket
+//@before parser.available_tparams.extend
     assert(exists|end: Location| location == #[trigger] joined(start_loc, end));
 //@end
 
